@@ -48,10 +48,26 @@ type vOuter struct {
 	D []vEntry `json:"d"`
 }
 
+// omap is a TLA+ function with a string domain as printed by ToJson: an object, or [] when the domain is empty.
+type omap[T any] map[string][]T
+
+func (m *omap[T]) UnmarshalJSON(b []byte) error {
+	if strings.TrimSpace(string(b)) == "[]" {
+		*m = omap[T]{}
+		return nil
+	}
+	var x map[string][]T
+	if err := json.Unmarshal(b, &x); err != nil {
+		return err
+	}
+	*m = x
+	return nil
+}
+
 type vObs struct {
-	O  map[string][]vOuter `json:"o"`
-	I  map[string][]vInner `json:"i"`
-	St map[string][]vOuter `json:"st"`
+	O  omap[vOuter] `json:"o"`
+	I  omap[vInner] `json:"i"`
+	St omap[vOuter] `json:"st"`
 	R  []vOuter            `json:"r"`
 	Q  []vInner            `json:"q"`
 }
